@@ -1,16 +1,72 @@
-"""Source of MANIFEST.json (tools/gen_manifest.py).  A property moves from NOT_APPLICABLE-pending
-to CHECKS only when its check exists, is silent on the unchanged tree and has caught a mutant."""
+"""Source of MANIFEST.json (tools/gen_manifest.py).  A property is moved into CHECKS only when its
+check exists, is silent on the unchanged tree and has caught a seeded change."""
+
+EXPL = "Exploration: generated-input search against an explicit oracle; evidence reports cases generated, distinct non-trivial cases and samples. No absence claim beyond the explored sample."
 
 CHECKS = {
+    "C01": {
+        "technique": "property-based differential testing: Hypothesis-generated (indicator config x timeframe/fill x regime stream x append composition) cases, incremental run vs batch twin compared exactly on every candle's values and reading dicts; one shard per indicator class / analysis wrapper; all 128 compositions of five fixed 8-candle streams enumerated per subject",
+        "level": EXPL + " 44 subjects x 400 generated cases (quick) plus 2 560 enumerated schedules per subject.",
+        "ref": "DESIGN.md section 4 C01",
+        "note": "Oracle is the library itself under a different schedule (exact equality, no tolerance); streams <= 60 candles quick / 200 thorough.",
+    },
+    "C02": {
+        "technique": "property-based testing with a history invariant (deep snapshot after every append: closed candles must be a prefix of every later snapshot) and a prefix metamorphic relation (batch over stream[:k] vs batch over the whole stream), standalone and through Hexital.get_candles() with two timeframes",
+        "level": EXPL,
+        "ref": "DESIGN.md section 4 C02",
+        "note": "Exact comparison of the library with itself at two times / two lengths; the still-forming bucket of a collapsing timeframe is excluded as the statement excludes it.",
+    },
     "C03": {
-        "technique": "property-based differential testing against an independent integer resampler (Hypothesis-generated timestamp patterns x timeframes x append compositions) plus exhaustive enumeration of all append compositions of fixed 7-candle patterns",
-        "level": "Exploration: tens of thousands of generated (stream, timeframe, schedule, repeated-collapse) cases per run compared exactly with a reference resampler written from the statement; all 64 compositions of ten hand-picked boundary patterns enumerated. No absence claim beyond the explored sample.",
+        "technique": "property-based differential testing against an independent integer resampler (Hypothesis-generated timestamp patterns x timeframes x append compositions, compared after every append) plus exhaustive enumeration of all append compositions of fixed 7-candle patterns",
+        "level": EXPL + " All 64 compositions of ten hand-picked boundary patterns are enumerated.",
         "ref": "DESIGN.md section 4 C03",
         "note": "Trusts the 40-line reference resampler hxv/ref/resample.py and TZ=UTC pinning; streams up to 120 candles, multipliers 1-60.",
     },
+    "C04": {
+        "technique": "property-based testing against textbook reference implementations in bounded (value +- rounding error) arithmetic, plus recurrence-local check, warm-up index, input-range bound and a metamorphic position-independence relation; inputs are price fields, volume, synthetic late-starting reading series and real upstream indicators",
+        "level": EXPL,
+        "ref": "DESIGN.md section 4 C04 and section 6",
+        "note": "Trusts hxv/ref/bounded.py + hxv/ref/indicators.py (independent of hexital); the tolerance is a computed over-approximation of what the configured rounding can introduce, never a hand-picked epsilon.",
+    },
+    "C05": {
+        "technique": "property-based testing against independent textbook definitions (TR, ATR, sigma, BBANDS, KC, Donchian, Highest/Lowest, HLA, Supertrend, threshold flag, Counter) computed from the raw candles in bounded arithmetic; discrete decisions judged on bounded values with ambiguous cases skipped",
+        "level": EXPL,
+        "ref": "DESIGN.md section 4 C05 and section 6",
+        "note": "Trusts the reference definitions; where the prose leaves a window convention open (HighestLowest) either convention is accepted consistently over a case.",
+    },
+    "C06": {
+        "technique": "property-based testing against independent textbook definitions (RSI, MACD, ROC, STOCH, TSI, Aroon, ADX, OBV, VWAP) in bounded arithmetic; singular points only require a value to be present; OBV compared exactly",
+        "level": EXPL,
+        "ref": "DESIGN.md section 4 C06 and section 6",
+        "note": "Trusts the reference definitions; ADX start-up accepts either textbook convention for the first candle's directional movement, consistently per case.",
+    },
+    "C11": {
+        "technique": "property-based differential testing against a reference Heikin-Ashi recurrence over (reference-resampled) raw candles under generated append schedules, with a counting HeikinAshi subclass for the exactly-once clause, clean_values check and a plain-candle twin for the readings; standalone and Hexital with an extra timeframe",
+        "level": EXPL,
+        "ref": "DESIGN.md section 4 C11",
+        "note": "Trusts hxv/ref/heikin.py and hxv/ref/resample.py; OHLC compared within 1e-9 relative.",
+    },
+    "C12": {
+        "technique": "property-based differential testing against the reference resampler with gap filling, plus contiguity / flat-zero-volume / real-buckets-unchanged invariants and schedule independence vs the batch run, on generated multi-gap timestamp patterns",
+        "level": EXPL,
+        "ref": "DESIGN.md section 4 C12",
+        "note": "Trusts hxv/ref/resample.py; integer OHLCV so comparison is exact.",
+    },
+    "C15": {
+        "technique": "property-based differential testing against an untrimmed twin fed the same append schedule, compared after every append: retained window for arbitrary lifespans (bare manager / look-back-free indicator, with and without Heikin-Ashi), retained readings for every indicator class with lifespan >= warm-up + largest chunk + margin",
+        "level": EXPL,
+        "ref": "DESIGN.md section 4 C15",
+        "note": "The precondition of the second clause is established by construction from a generous per-class look-back bound (hxv/gen/configs.py).",
+    },
+    "C18": {
+        "technique": "property-based in-process differential testing across process time zones (POSIX TZ rule strings incl. half-hour/45-minute offsets and DST zones, timestamps on transition days): collapse under TZ=<zone> vs TZ=UTC vs the zone-free reference resampler",
+        "level": EXPL,
+        "ref": "DESIGN.md section 4 C18",
+        "note": "Relies on the C library interpreting POSIX TZ strings (no tz database needed); the harness owns TZ/tzset inside the property body.",
+    },
 }
 
-_PENDING = "check under construction in this session; will be claimed once it is silent on the unchanged tree and has caught a seeded mutant"
+_PENDING = "check under construction in this session; will be claimed once it is silent on the unchanged tree and has caught a seeded change"
 NOT_APPLICABLE = [
     {"property_id": f"C{n:02d}", "reason": _PENDING}
     for n in range(1, 21)
